@@ -26,7 +26,7 @@ try:
     if b.returncode != 0:
         print('{"found": false, "replay_build_failed": true}')
         sys.exit(0)
-    if pat.startswith("C20") or pat.startswith("C18"):
+    if pat.startswith("C20") or pat.startswith("C18") or pat.startswith("C16"):
         # the `varlink` binary of the tree under test (own target dir; the workspace's dependencies are vendored in the cargo registry)
         tdir = os.path.join(build, "cli-target")
         c = subprocess.run(["cargo", "build", "--release", "--offline", "-q", "-p", "varlink-cli"], cwd=repo,
